@@ -272,6 +272,7 @@ func cmdSessions(args []string) {
 			cases = append(cases, GenSessionProbe(rp, fmt.Sprintf("sprobe-%d-%d", p.seed, i)))
 		}
 		cases = append(cases, genNestProbe(rp, fmt.Sprintf("nprobe-%d", p.seed)))
+		cases = append(cases, genDeepProbe(rp, fmt.Sprintf("deep-%d", p.seed)))
 	}
 	var kept []*Case
 	for _, c := range cases {
@@ -301,6 +302,26 @@ func cmdSessions(args []string) {
 					in = append(in, 1)
 				}
 				inputs = append(inputs, append(in, 3))
+			}
+		}
+		if c.Family == "deep" {
+			// brackets nested to depths on both sides of every plausible growth step of a parse stack (64 .. 512 entries):
+			// a fresh parser object meets the depth for the first time, a re-initialised one after a deeper or a shallower parse
+			ord := map[string]int{}
+			for i, t := range c.Terminals() {
+				ord[t] = i + 1
+			}
+			inputs = [][]int{}
+			for _, d := range []int{2, 300, 600, 130} {
+				in := []int{}
+				for j := 0; j < d; j++ {
+					in = append(in, ord["'('"])
+				}
+				in = append(in, ord["n"])
+				for j := 0; j < d; j++ {
+					in = append(in, ord["')'"])
+				}
+				inputs = append(inputs, in)
 			}
 		}
 		if len(inputs) < 2 {
@@ -653,5 +674,18 @@ func genNestProbe(r *rand.Rand, id string) *Case {
 	// the innermost input starts differently from the input of the parse around it: two parsers that (wrongly) share
 	// their stack storage leave different states in it
 	c.NestInput2 = []int{ord["'('"], ord["n"], ord["')'"]}
+	return c
+}
+
+// genDeepProbe: brackets around a number; the campaign parses very deep nestings with it (see cmdSessions).
+func genDeepProbe(r *rand.Rand, id string) *Case {
+	c := &Case{ID: id, Family: "deep", Start: "S", Types: map[string]string{}}
+	c.Tokens = []Tok{{Name: "n"}, {Name: "(", Lit: true}, {Name: ")", Lit: true}}
+	c.Rules = []Rule{
+		{Lhs: "S", Rhs: []string{"'('", "S", "')'"}},
+		{Lhs: "S", Rhs: []string{"n"}},
+	}
+	Valuate(c, r, true)
+	c.NestRule = 0
 	return c
 }
